@@ -88,12 +88,14 @@ theorem C19_certified (pre post : Store) (roots m : List Nat) (ps ps' : List (Na
 
 /-! ### universal theorems on the model -/
 
-/-- the retained prefix is cell-for-cell unchanged, as are the retention count and the block start -/
+/-- the retained prefix is cell-for-cell unchanged, as are the retention count and the block start.
+`ValueLinksClosed`: no retained `Value`/`ValueRoot` cell refers above the prefix; when one does (it was
+updated in place through `get_current_value_mut`) the patched `optimize` rewrites exactly that link. -/
 theorem optimize_retained_prefix_unchanged {s s' : Store} {roots m : List Nat}
-    (h : Store.optimize s roots = .ok (s', m)) (hr : s.retention ≤ s.cells.size) :
+    (h : Store.optimize s roots = .ok (s', m)) (hr : s.retention ≤ s.cells.size) (hvc : ValueLinksClosed s) :
     s'.retention = s.retention ∧ s'.start = s.start ∧ s.retention ≤ s'.cells.size ∧
       ∀ i, i < s.retention → s'.cells[i]? = s.cells[i]? :=
-  BasicOpt.optimize_retained_prefix_unchanged h hr
+  BasicOpt.optimize_retained_prefix_unchanged h hr hvc
 
 /-- `clone_data` leaves the original intact: cells are only appended (`Ext.mono`), every cell that
 existed is unchanged (`Ext.keep`), heads / symbol table / retention count are unchanged (`Ext.frame`) -/
@@ -121,15 +123,15 @@ def cellRefs : Cell → List Nat
   | .valueRoot v | .registerRoot v | .instructionWithData _ v | .frameIndex v | .frameRegister v => [v]
   | _ => []
 
-/-- the hypotheses under which C19 can hold for `optimize` (each one is necessary: see the witnesses) -/
+/-- the hypotheses under which C19 can hold for `optimize` -/
 structure OptInv (s : Store) (roots : List Nat) : Prop where
-  /-- the retention count is a size of the data block … -/
+  /-- the retention count is a size of the data block (above it: subtraction overflow at optimize.rs) … -/
   retentionLe : s.retention ≤ s.cells.size
-  /-- … below which nothing refers to a cell at or above it (false after an in-place update of a retained
-  `Value` cell, false for a count that cuts through a multi-cell value) -/
-  prefixClosed : ∀ (i : Nat) (c : Cell), i < s.retention → s.cells[i]? = some c → ∀ a ∈ cellRefs c, a < s.retention
-  /-- no `CloneIndexMap` left behind by an earlier `clone_data` -/
-  noStaleMaps : ∀ (i o n : Nat), s.cells[i]? ≠ some (Cell.cloneIndexMap o n)
+  /-- … below which no cell other than an input-value cell refers to a cell at or above it (false for a count
+  that cuts through a multi-cell value or a list under construction; `Value`/`ValueRoot` cells are exempt
+  since the fix that re-points them) -/
+  prefixClosed : ∀ (i : Nat) (c : Cell), i < s.retention → s.cells[i]? = some c →
+    (∀ p v, c ≠ .value p v) → (∀ v, c ≠ .valueRoot v) → ∀ a ∈ cellRefs c, a < s.retention
   /-- every root has an unfolding (acyclic, well-formed), within the clone limit -/
   rootsDecode : ∀ r ∈ roots, ∃ fuel t, unfold s.cells fuel r = some t
 
@@ -140,11 +142,53 @@ def C19_optimize_preserves_statement : Prop :=
 
 /-- proved part of `C19_optimize_preserves_statement` -/
 theorem C19_optimize_preserves_partial {s s' : Store} {roots m : List Nat}
-    (h : Store.optimize s roots = .ok (s', m)) (hr : s.retention ≤ s.cells.size) :
+    (h : Store.optimize s roots = .ok (s', m)) (hr : s.retention ≤ s.cells.size) (hvc : ValueLinksClosed s) :
     s'.retention = s.retention ∧ (∀ i, i < s.retention → s'.cells[i]? = s.cells[i]?) ∧
     m.length = roots.length ∧ (∀ (k r : Nat), roots[k]? = some r → r < s.retention → m[k]? = some r) := by
-  obtain ⟨h1, _, _, h4⟩ := BasicOpt.optimize_retained_prefix_unchanged h hr
+  obtain ⟨h1, _, _, h4⟩ := BasicOpt.optimize_retained_prefix_unchanged h hr hvc
   obtain ⟨h5, h6⟩ := BasicOpt.optimize_retained_roots_fixed h
   exact ⟨h1, h4, h5, h6⟩
+
+/-! ### the two scripts that broke the code before the fixes, on the patched model
+(kernel evaluation of the model: `decide +kernel`, no axioms) -/
+
+/-- data block `[Number 5]`, then `clone_data(0)`, then `optimize(&[0])`:
+(cursor afterwards, returned mapping, the cell at the reported address) -/
+def staleMapScript : Option (Nat × List Nat × Option Cell) :=
+  match (do
+    let (s, a) ← Store.fresh.push (.number 5)
+    let (s, _) ← s.cloneData a
+    let (s, m) ← s.optimize [a]
+    pure (s.cells.size, m, (m.head?).bind (fun i => s.cells[i]?)) : Outcome (Nat × List Nat × Option Cell)) with
+  | .ok r => some r
+  | _ => none
+
+/-- the stale `CloneIndexMap(0, 2)` of the clone no longer answers for the root (before the fix: mapping `[2]`
+into a one-cell block) -/
+theorem stale_map_script_preserved : staleMapScript = some (1, [0], some (.number 5)) := by decide +kernel
+
+/-- `[Unit]` on the value stack, retained; garbage; a new value written into the retained `ValueRoot` in place;
+`optimize(&[])`: (cursor afterwards, the cell the value head refers to, the cell that one refers to) -/
+def inPlaceScript : Option (Nat × Option Cell × Option Cell) :=
+  match (do
+    let (s, a) ← Store.fresh.push .unit
+    let s ← s.pushValue a
+    let s := s.retainAll
+    let (s, _) ← s.push (.number 9)
+    let (s, b) ← s.push (.number 7)
+    let s ← s.setCurrentValue b
+    let (s, _) ← s.optimize []
+    let head := s.currentValue.bind (fun i => s.cells[i]?)
+    let target := match head with
+      | some (.valueRoot v) => s.cells[v]?
+      | _ => none
+    pure (s.cells.size, head, target) : Outcome (Nat × Option Cell × Option Cell)) with
+  | .ok r => some r
+  | _ => none
+
+/-- the retained `ValueRoot` is re-pointed to the moved value (before the fix it kept address 3 of a block that
+ends at 3) -/
+theorem in_place_script_preserved : inPlaceScript = some (3, some (.valueRoot 2), some (.number 7)) := by
+  decide +kernel
 
 end Garnish.Props.C19
